@@ -403,7 +403,7 @@ package ctfe
 //@ at b assert [leaf-cert-and-chain-hash] b.cert == ex.res[0] && b.chainHash == ad.res0 && b.merkleLeaf == *merkleLeaf && b.isPrecert == isPrecert
 
 //@ func (*indirectIssuanceChainService).FixLogLeaf
-//@ props C14
+//@ props C14 C07
 //@ stable s
 //@ site tls.Unmarshal#1 as u1
 //@ site getByHash#1 as g1
@@ -629,6 +629,7 @@ package ctfe
 //@ at q assert [queues-that-leaf-for-this-log] q.in.LogId == li.logID && q.in.Leaf == bl.res0
 //@ at um assert [decodes-the-leaf-the-backend-returned] um.b == after(q, q.res0.QueuedLeaf.Leaf.LeafValue) && typeof(um.val) == *ct.MerkleTreeLeaf && as(um.val, *ct.MerkleTreeLeaf) == &loggedLeaf
 //@ at bs assert [sct-built-from-the-returned-leaf-with-log-key] bs.leaf == &loggedLeaf && bs.signer == li.signer
+//@ at bs assert [the-returned-leaf-is-signed-as-decoded-its-timestamp-untouched] loggedLeaf.TimestampedEntry.Timestamp == after(um, loggedLeaf.TimestampedEntry.Timestamp) && loggedLeaf.TimestampedEntry.EntryType == after(um, loggedLeaf.TimestampedEntry.EntryType)
 //@ at ms assert [encodes-that-sct] typeof(ms.val) == ct.SignedCertificateTimestamp && as(ms.val, ct.SignedCertificateTimestamp) == *bs.res0
 //@ at iss assert [records-the-encoded-sct] iss.arg1 == ms.res0
 //@ at wr assert [responds-with-that-sct] wr.sct == bs.res0 && wr.signer == li.signer
